@@ -10,24 +10,24 @@ VERIF = os.path.dirname(os.path.dirname(os.path.abspath(__file__)))
 
 # rule families added after the first build (section 3 of DESIGN.md is the full list)
 EXTRA = {
-    "C03": "cached-attribute inlining with staleness check, interprocedural chain following of the acceptance expression",
-    "C04": "memo-invalidation obligations (tested-and-filled attributes vs. mutators of their dependencies), sign x monotonicity orientation of the log-weight and the evidence along the path to each ingredient (sa/mono.py), stride-assumption lint for flat-index arithmetic",
-    "C05": "must-pass-through of the finalising call on every return, sibling agreement of the warm-up predicate, exact-target expression check, untracked-value join and exact-key memo tracking in the evaluated-at interpreter",
-    "C06": "constant evaluation of the renormalisation tolerance against sqrt(eps), numpy contract row for multinomial(pvals)",
-    "C07": "whole-record rebinding rule, dtype/squeeze lints on the evaluation chain, record sites in constructor calls, named-tuple consumers, binding rule for the configured likelihood (args and kwargs), guard rule for reads of the stored blobs, partial row copies between records, transparent pass-through rule for the binding wrapper",
-    "C08": "payload-untouched rule for exported sections, NamedTemporaryFile / non-atomic move idioms, run-result attributes in the writer/loader key tables, nested stores into exported sections",
-    "C09": "guard rule for seeding calls whose argument may be None, public defaults as provenance, stream-rewind rule (set_state of an own snapshot), no-draw-cached-in-process-lifetime-storage rule, dataclasses.replace resolved in the call graph, no-transformation rule on the seed path, checkpoint seed provenance on the unrolled form",
+    "C03": "cached-attribute inlining with staleness check, interprocedural chain following of the acceptance expression, who-may-write rule for the kernel's labels and mode statistics (fixed kernel), lost-store lint for chained advanced indexing",
+    "C04": "memo-invalidation obligations (tested-and-filled attributes vs. mutators of their dependencies), sign x monotonicity orientation of the log-weight and the evidence along the path to each ingredient (sa/mono.py), stride-assumption lint for flat-index arithmetic, read-only rule for handed-out log-weights in the consumers, no-rebinding rule for the requested temperature",
+    "C05": "must-pass-through of the finalising call on every return, sibling agreement of the warm-up predicate, exact-target expression check, untracked-value join and exact-key memo tracking in the evaluated-at interpreter, stateless-step rule (no state-derived copy kept across calls, per-call scratch recognised), pool-emptiness guard of the nominal first-iteration record",
+    "C06": "constant evaluation of the renormalisation tolerance against sqrt(eps), numpy contract row for multinomial(pvals), ownership-lattice rule that the routines do not write into caller-owned weight arrays or cached arrays, stateless-step rule for the resampling step",
+    "C07": "whole-record rebinding rule, dtype/squeeze lints on the evaluation chain, record sites in constructor calls, named-tuple consumers, binding rule for the configured likelihood (args and kwargs), guard rule for reads of the stored blobs, partial row copies between records, transparent pass-through rule for the binding wrapper, stateless-step rule for the resampling / mutation steps, truth-table equivalence of the commit guard with the none-test, dtype of arrays allocated to receive the log-likelihoods",
+    "C08": "payload-untouched rule for exported sections, NamedTemporaryFile / non-atomic move idioms, run-result attributes in the writer/loader key tables, nested stores into exported sections, rename-only-after-success rule (finally / handler / __exit__ without exception test), set-iteration-order layout lint for key tables",
+    "C09": "guard rule for seeding calls whose argument may be None, public defaults as provenance, stream-rewind rule (set_state of an own snapshot), no-draw-cached-in-process-lifetime-storage rule, dataclasses.replace resolved in the call graph, no-transformation rule on the seed path, checkpoint seed provenance on the unrolled form, memoised functions must not reach a draw site in the call graph",
     "C10": "log-domain discipline (no exponential of a shifted value), typed normalize=False results, closeness tests in the shift typing",
     "C11": "count algebra over #finite/#infinite for the recorded fraction, must-record rule per batch, canonical skip-guard keys",
-    "C12": "normalisation typing of returned weights (interprocedural), list-accumulated return expansion, facade pass-through / whole-tuple row-selection rule, must-pass-through of the final evidence from the entry of run()",
-    "C13": "who-may-call rule for the user likelihood, batch-identity and mode-precedence rules, __setstate__ key agreement, lazy-iterator materialisation rule, who-may-read rule for the evaluation options pool and vectorize, no pool in process-lifetime storage",
-    "C14": "labels-are-predict-of-the-stored-rows rules, bincount span and producer-loop skip lints, path facts avoiding a conditional fit, who-may-write rule for fitted mode attributes, must-write of the labels on every path of the labelling step, index-space (label vs rank) typing of per-mode arrays inside the kernel, consistent re-binding of the shared clusterer",
-    "C15": "flow-based label returns, convexity/centring structure of the M-step, memo obligations, reliability-weight covariance lint, errstate-underflow lint, floating dtype of the sample weights",
-    "C16": "exactness side condition of the fold (no constant added to the unreduced coordinate), whole-array write rule, context-sensitive provenance of the periodic/reflective index sets from the public constructor to every helper call, views of the working copy, return-shape rule, round-off guard continuity in the fold domain, cached-result mutation lint",
-    "C17": "all-or-nothing commit (no raise reachable after an append), stored-shape inference for cache attributes, local containers filled by item stores, shared-mutable-object lint for history slots, in-place numpy operations on internal arrays, who-may-rebind the history containers, computed section keys of exported aliases",
+    "C12": "normalisation typing of returned weights (interprocedural), list-accumulated return expansion, facade pass-through / whole-tuple row-selection rule, must-pass-through of the final evidence from the entry of run(), exact-ESS rule for the termination guard (no rounding / shifting of the compared value)",
+    "C13": "who-may-call rule for the user likelihood, batch-identity and mode-precedence rules, __setstate__ key agreement, lazy-iterator materialisation rule, who-may-read rule for the evaluation options pool and vectorize, no pool in process-lifetime storage, repeated-evaluation rule (a likelihood call that can run again before the one counter update)",
+    "C14": "labels-are-predict-of-the-stored-rows rules, bincount span and producer-loop skip lints, path facts avoiding a conditional fit, who-may-write rule for fitted mode attributes, must-write of the labels on every path of the labelling step, index-space (label vs rank) typing of per-mode arrays inside the kernel, consistent re-binding of the shared clusterer, eigendecomposition reconstruction contract (eigenvectors as columns), truth-table agreement of the single-mode conditions of the training and resampling steps, wiring implication between each user's clustering flag and the construction of the shared clusterer",
+    "C15": "flow-based label returns, convexity/centring structure of the M-step, memo obligations, reliability-weight covariance lint, errstate-underflow lint, floating dtype of the sample weights, regularised-density rule for the per-component columns, fancy-index accumulation lint (repeating index arrays)",
+    "C16": "exactness side condition of the fold (no constant added to the unreduced coordinate), whole-array write rule, context-sensitive provenance of the periodic/reflective index sets from the public constructor to every helper call, views of the working copy, return-shape rule, round-off guard continuity in the fold domain, cached-result mutation lint, shared mutable default and process-lifetime memo key-completeness rules over the functions reachable from the boundary helpers",
+    "C17": "all-or-nothing commit (no raise reachable after an append), stored-shape inference for cache attributes, local containers filled by item stores, shared-mutable-object lint for history slots, in-place numpy operations on internal arrays, who-may-rebind the history containers, computed section keys of exported aliases, copy-flag re-binding rule in storing loops, precise reading of copy-and-array tests in the ownership lattice",
     "C18": "coercion/rebinding rule around validation, configuration plumbing and name-crossed positional argument lints, dispatch tables, own-field-only guards of the range rows of the validation table, cap-after-floor rule for the step bounds",
-    "C19": "bracket sign/regime rule for the root search, inverse-CDF clamp lint, polymorphic fills and closeness tests in the degree domain, per-coordinate covariance typing of the fit (sa/coord.py), weight-scale typing of the mode factories with sub-vector mass, per-coordinate typing of the mode factories",
-    "C20": "scale typing of the volume metric, for-loop search forms, role-based anchors, reliability-weight covariance lint, flatten-gather lint (take/compress without axis), conditioning budget for relative spectral floors, errstate-underflow lint",
+    "C19": "bracket sign/regime rule for the root search, inverse-CDF clamp lint, polymorphic fills and closeness tests in the degree domain, per-coordinate covariance typing of the fit (sa/coord.py), weight-scale typing of the mode factories with sub-vector mass, per-coordinate typing of the mode factories, stateless-step rule for the training step",
+    "C20": "scale typing of the volume metric, for-loop search forms, role-based anchors, reliability-weight covariance lint, flatten-gather lint (take/compress without axis), conditioning budget for relative spectral floors, errstate-underflow lint, `initial=` of max/min reductions in the shift typing (absolute bound mixed into an offset-dependent value)",
 }
 
 CLAIMS = {
